@@ -520,6 +520,22 @@ pub fn run(ctx: &Ctx, rep: &mut Report, judge: Judge) {
             let n = 1000 + rng.below(1 << 30);
             run_path_case(ctx, rep, &mut rng, n);
         }
+        if rng.chance(1, 12) {
+            // resonant class: block size = restart period of an all-pole impulse response whose ideal
+            // predictor does not fit the coefficient precision of small blocks (negative-shift
+            // quantisation branch of the encoder; shows as lpc_shift 0 in the coverage histogram)
+            let seed = rng.next();
+            let mut cfg = EncCfg::random(&mut rng);
+            cfg.block_size = flacref::pcm::resonant_period(seed) as u16;
+            cfg.max_lpc = Some(*rng.pick(&[16u8, 24, 32]));
+            cfg.bps = *rng.pick(&[16u32, 20, 24, 32]);
+            cfg.channels = rng.usize(1, 2) as u8;
+            let frames = cfg.block_size as usize * rng.usize(1, 4) + *rng.pick(&[0usize, 0, 1, 40]);
+            rep.count("class", "resonant");
+            let case = Case { cfg, front: *rng.pick(&FRONTS), recipe: PcmRecipe { signal: Signal::Resonant, seed, frames } };
+            run_case(ctx, rep, judge, &case);
+            continue;
+        }
         let cfg = EncCfg::random(&mut rng);
         let bs = cfg.block_size as usize;
         let order = cfg.max_lpc.unwrap_or(4) as usize;
